@@ -83,6 +83,27 @@ def norm_defs(defs):
     return walk(defs)
 
 
+def odd_tags(diff):
+    """Which lexical feature a parser difference is about (mechanism tags for known-finding matching): only
+    differences confined to the title of an entry are classified."""
+    tags = set()
+    try:
+        r1, r2 = diff
+        # (a mangled title also takes the prompt's condition with it: only kind, name and type have to agree)
+        if isinstance(r1, list) and isinstance(r2, list) and len(r1) == len(r2) and r1[:3] == r2[:3]:
+            t1, t2 = r1[4], r2[4]
+            if isinstance(t1, str) and isinstance(t2, str):
+                if "  " in t1 and t2 == " ".join(t1.split()):
+                    tags.add("double-space-in-title")
+                elif t2 == "" and t1:
+                    tags.add("leading-space-in-title")
+                elif '"' in t1 and "\\" in t2:
+                    tags.add("escaped-quote-in-title")
+    except Exception:
+        pass
+    return tags
+
+
 def strip_help(shape):
     return [row[:8] + row[9:] for row in shape]
 
@@ -95,7 +116,7 @@ def main(run):
     lat = lattice.prec_lattice(tier)
     if tier == "quick":
         items = [p for k, p in enumerate(lat) if p["family"] in ("F-edge", "F-setsym", "F-regress") or k % 12 == 0] + nav_programs() + ktree.generate(run.seed + 6100, 40)
-        styles = ["separate-prompt+shuffle", "comments", "continuation", "everything", "macros", "macros+rsource"]
+        styles = ["separate-prompt+shuffle", "comments", "continuation", "everything", "macros", "macros+rsource", "split-and", "min-parens", "odd-text"]
         cap = 24
     else:
         items = lat[::2] + nav_programs() + ktree.generate(run.seed + 6100, 1500)
@@ -150,6 +171,26 @@ def main(run):
         for st in styles:
             vtext, vextra = ktree.render_styled(prog, st, random.Random("%d/v%d%s" % (run.seed, pi, st)))
             nvar += 1
+            if ktree.STYLES[st].get("odd_text"):
+                # other texts than the canonical ones (titles, help): the two parsers are compared with each other
+                res = {}
+                for v in (1, 2):
+                    k, err = build(run, vtext, vextra, v)
+                    if k is None:
+                        res[v] = ("reject", err)
+                    else:
+                        try:
+                            res[v] = ("ok", absx.tree_shape(k), absx.tree_defs(k))
+                            kc.reset_report(k)
+                        except Exception as e:
+                            res[v] = ("reject", "CRASH reading the tree: %s: %s" % (type(e).__name__, str(e)[:200]))
+                if res[1][0] != res[2][0] or any(r[0] == "reject" and r[1].startswith("CRASH") for r in res.values()):
+                    run.report("parsers disagree on accepting the '%s' variant: parser 1: %s; parser 2: %s" % (st, res[1][1] if res[1][0] == "reject" else "accepted", res[2][1] if res[2][0] == "reject" else "accepted"),
+                               {"kconfig": vtext, "parser1": res[1][:2] if res[1][0] == "reject" else "accepted", "parser2": res[2][:2] if res[2][0] == "reject" else "accepted"}, {"P-BothAcceptOrReject", "style:" + st})
+                elif res[1][0] == "ok" and (res[1][1] != res[2][1] or norm_defs(res[1][2]) != norm_defs(res[2][2])):
+                    diff = next(((x, y) for x, y in zip(res[1][1], res[2][1]) if x != y), None) or next(((x, y) for x, y in zip(res[1][2], res[2][2]) if x != y), None)
+                    run.report("the two parsers read the '%s' variant differently: %s" % (st, str(diff)[:500]), {"kconfig": vtext, "first_difference": diff}, {"P-SameTree", "style:" + st} | odd_tags(diff))
+                continue
             for v, b in ((1, b1), (2, b2)):
                 k, err = build(run, vtext, vextra, v)
                 if k is None:
